@@ -161,6 +161,11 @@ def run(ctx):
     deflate(ctx)
     snappy(ctx)
     framing(ctx, bw, rd)
+    reject(ctx)
+    # the object count announced by a block equals the number of objects whose bytes it holds: a failed value is
+    # neither kept nor counted (shared with C15)
+    from .c15 import failed_rule
+    failed_rule(ctx)
 
 
 def deflate(ctx):
@@ -393,3 +398,49 @@ def framing(ctx, bw, rd):
                 if any(x is f16[0][1] for x in a0.calls + a1.calls) and ('sync_marker' in a0.fields or 'sync_marker' in a1.fields):
                     ok = True
     ctx.ob('FRAMING', 'reader/sync-compared', ok, short_loc(nx.span), 'trailing 16 bytes compared with the header\'s sync marker: %s' % ok)
+
+
+# rejection sites of the container reader (all features): reviewed once, each is a spec violation of the input
+REJECT_REVIEWED = 11
+REJECT_REASONS = [
+    'header: magic mismatch (NotAvroObjectContainerFile)',
+    'block header: negative object count / negative byte size (2 conversion errors)',
+    'block end: sync marker mismatch; reader reused after an error (Broken)',
+    'snappy: block size < 4, decompression error, decompressed length mismatch, CRC mismatch (4)',
+    'zstandard: driving the decoder to its end fails / leaves data (2)',
+]
+
+
+def reject(ctx):
+    """a conforming file must be accepted: every place where the reader *originates* an error is reviewed; a new
+    one (e.g. an extra plausibility check on counts or sizes) is reported"""
+    f = ctx.f
+    Pr = P + 'reader::'
+    sites = []
+    for b in f.body_list:
+        fl = fn_label(b)
+        if not (fl.startswith(Pr) or fl.startswith('<' + Pr)) or b.j.get('from_expansion'):
+            continue
+        for bb, t in b.calls():
+            c = strip_generics(cname(t))
+            if (c.startswith('de::error::DeError::') and c.rsplit('::', 1)[1] in ('new', 'custom', 'custom_io', 'io', 'unexpected_eof')) or \
+                    c.endswith('de::Error>::custom') or c.endswith('serde_core::de::Error::custom'):
+                if (t.get('span') or {}).get('exp') and 'Derive' in (t.get('span') or {}).get('macro', ''):
+                    continue
+                msg = None
+                for a in t['args']:
+                    msg = msg or const_str(a)
+                sites.append((fl, short_loc(t.get('span')), msg))
+        for bb in b.live_blocks():
+            if b.is_cleanup(bb):
+                continue
+            for s_ in b.stmts(bb):
+                if 'assign' in s_ and s_['rv']['k'] == 'agg' and (s_['rv'].get('adt') or '').endswith('FailedToInitializeReader') and not s_['rv']['ops']:
+                    sites.append((fl, short_loc(s_.get('span')), s_['rv']['variant']))
+    n = len(sites)
+    ctx.counts['REJECT:error-origination sites in the container reader'] = {'actual': n, 'floor': 0}
+    extra = ''
+    if n > REJECT_REVIEWED:
+        extra = '; sites: ' + '; '.join('%s @%s (%s)' % (x[0].rsplit('::', 2)[-2] + '::' + x[0].rsplit('::', 1)[-1], x[1], (x[2] or '')[:50]) for x in sites)
+    ctx.ob('REJECT', 'reader/rejection-sites', n <= REJECT_REVIEWED, None,
+           'the container reader originates an error at %d place(s); %d are reviewed (%s)%s' % (n, REJECT_REVIEWED, ' | '.join(REJECT_REASONS), extra))
